@@ -80,6 +80,9 @@ type Rule struct {
 	Post  int64  `json:"post_ns"`
 	Fault string `json:"fault,omitempty"`
 	Hang  int64  `json:"hang_ns,omitempty"`
+	// Stall (Get only): the goroutine that receives the answer is descheduled between reading the value and reading the
+	// revision of the entry, for this long or until its instance's claim changes, whichever comes first
+	Stall int64 `json:"stall_ns,omitempty"`
 }
 
 type WatchPlan struct {
@@ -97,7 +100,8 @@ type Action struct {
 	After int64  `json:"after,omitempty"`
 	Do    string `json:"do"`
 	// On: instead of a time, the observation of instance OnI that triggers the action, at that very instant:
-	// "log:<code>", "trans:<to-state code>", "flag:<0|1>", "issue:<kind code>"; OnNth picks the occurrence (0 = first)
+	// "log:<code>", "trans:<to-state code>", "flag:<0|1>", "issue:<kind code>", "stall" (a Rule.Stall begins);
+	// OnNth picks the occurrence (0 = first)
 	On    string `json:"on,omitempty"`
 	OnI   string `json:"on_i,omitempty"`
 	OnNth int    `json:"on_nth,omitempty"`
